@@ -129,8 +129,23 @@ def type_lists(draw, root):
 
 
 @st.composite
-def cases(draw):
+def cases(draw, bare=False):
     root = draw(attr_objects(3))
+    if bare:
+        # the documented single-item form skip="name" / skip=SomeType (not wrapped in a list), always naming
+        # something that is present (first-order mutant C14:179: load() iterating the characters of a bare string)
+        present = sorted(_all_names(root))
+        mode = draw(st.sampled_from(["save", "load", "load", "both", "types"] if present else ["types"]))
+        return {
+            "kind": "skip",
+            "root": root,
+            "mode": mode,
+            "store": draw(st.sampled_from(["zip", "dir"])),
+            "save_names": [draw(st.sampled_from(present))] if mode in ("save", "both") else [],
+            "load_names": [draw(st.sampled_from(present))] if mode in ("load", "both") else [],
+            "types": [draw(st.sampled_from(sorted(_present_tokens(root)) or TYPE_TOKENS))] if mode == "types" else [],
+            "form": "bare",
+        }
     mode = draw(st.sampled_from(["save", "load", "both", "save+types", "types"]))
     case = {
         "kind": "skip",
@@ -273,3 +288,4 @@ def _dict_keys(spec):
 
 def search(ctx):
     core.run_given(ctx, "skip", cases(), lambda c: check(ctx, c), ctx.n(110, 500))
+    core.run_given(ctx, "skip-bare", cases(bare=True), lambda c: check(ctx, c), ctx.n(20, 100))
